@@ -3,7 +3,7 @@ import enums
 from common import Result
 from e3 import Config, Subj
 from e3check import compare_transcripts, explore
-from enums import ALL_REPRS, REPRS, family_F, family_H, family_L
+from enums import ALL_REPRS, REPRS, family_A, family_F, family_H, family_L, family_M
 
 QUICK_L_REPRS = ["i8", "u8", "i16", "u64"]
 THOROUGH_F3_REPRS = ["i8", "u8", "i16", "u16", "i64", "u64", "i128", "usize"]
@@ -16,7 +16,15 @@ def base_decls(tier, with_H=True, quick_reprs=None, renames=True, f3_reprs=None)
             out += family_F(r, 2, 2, 2, renames=renames)
         for r in QUICK_L_REPRS:
             out += family_L(r, renames=renames)
+        for r in ("i8", "u16", "i64"):
+            out += family_M(r, 3)
+        for r in ("i16", "u32", "i64", "u64", "i128", "usize"):
+            out += family_A(r)
     else:
+        for r in ALL_REPRS:
+            out += family_A(r)
+        for r in ALL_REPRS:
+            out += family_M(r, 3, full=r in ("i8", "i64", "u8"))
         for r in ALL_REPRS:
             out += family_F(r, 2, 2, 2, renames=renames)
         for r in (f3_reprs or THOROUGH_F3_REPRS):
@@ -171,7 +179,7 @@ def c06(tier):
             decls += family_F(r, 2, 2, 2, renames=False)
         bounds = dict(x1_depth=3, x2_extra=2, x2_cap=8)
         ldecls = []
-        for r in ("u8", "i16"):
+        for r in QUICK_L_REPRS:
             ldecls += family_L(r, renames=False)
         lbounds = dict(x1_depth=2, x2_extra=0, x2_cap=3)
     else:
@@ -254,7 +262,7 @@ def c07(tier):
         for r in ("i8", "u8", "i64", "u128"):
             decls += family_F(r, 2, 2, 1, renames=False)
         bounds = dict(range_x1_depth=2, range_x2_extra=2, x2_cap=7)
-        lreprs = ("u8", "i16")
+        lreprs = QUICK_L_REPRS
     else:
         decls = []
         for r in ALL_REPRS:
